@@ -227,6 +227,8 @@ def readFromStream(substrate, size=-1, context=None):
     : :py:class:`~pyasn1.error.EndOfStreamError`
         Input stream is exhausted
     """
+    stalled = None
+
     while True:
         # this will block unless stream is non-blocking
         received = substrate.read(size)
@@ -237,6 +239,19 @@ def readFromStream(substrate, size=-1, context=None):
             raise error.EndOfStreamError(context=context)
 
         elif len(received) < size:
+            if len(received) == stalled:
+                # no progress since the previous attempt: a short read
+                # may also mean that the stream has ended (empty read),
+                # only "no data yet" is worth retrying
+                following = substrate.read(1)
+
+                if following is not None and not following:
+                    raise error.EndOfStreamError(context=context)
+
+                substrate.seek(-len(following or ''), os.SEEK_CUR)
+
+            stalled = len(received)
+
             substrate.seek(-len(received), os.SEEK_CUR)
 
             # behave like a non-blocking stream
